@@ -27,6 +27,10 @@ func rulesC16(c *Ctx) {
 	c01PostExecute(c)
 	c03Transition(c)
 	c03Edges(c)
+	// breaker events of concurrent executions form one connected path (each event's old state is the previous
+	// event's new state, specific and generic listeners agree) only because a transition and its two notifications
+	// happen inside one critical section of the breaker's mutex: the lock discipline of the breaker is part of C16
+	lockDiscipline(c, "circuitbreaker")
 	c06Pairing(c)
 	c05Executor(c)
 	c07Race(c)
@@ -436,6 +440,65 @@ func c17Flags(c *Ctx) {
 		}
 		if ok && len(ps) > 0 {
 			c.Ok(c.fn(fn), c.P.FuncPos(fn), sp.doc)
+		}
+	}
+	// LastError: the recorded error of the most recent attempt wins; only when there is none does the context's
+	// error show through (so an attempt keeps seeing the previous attempt's error after its context is cancelled)
+	if fn := c.P.Func("failsafe.(*execution).LastError"); fn == nil {
+		c.Unresolved("failsafe.(*execution).LastError", "not found")
+	} else {
+		ev := NewEvaluator(c.P, EvalConfig{})
+		ts := ev.TS
+		ok := true
+		ps := ev.Run(fn)
+		e := ev.Param(fn, fn.Params[0].Name())
+		last := ev.LoadField(ev.NewState(), e, "lastError")
+		ctx := ev.LoadField(ev.NewState(), e, "ctx")
+		for _, p := range ps {
+			bad := func(msg string) {
+				ok = false
+				c.Fail(c.fn(fn), c.P.FuncPos(fn), msg, pathTrace(ev, p))
+			}
+			if p.Exit != ExitReturn || len(p.Rets) != 1 || last == nil || ctx == nil {
+				bad("LastError() must return on every path")
+				continue
+			}
+			errs := eventsWhere(p, func(x *Event) bool { return isCall(x, "Err") && x.Recv == ctx })
+			for _, x := range impure(p) {
+				if !isCall(x, "Err") {
+					bad("LastError() must not have effects")
+				}
+			}
+			switch p.State.Facts.Truth(ts, ts.Cmp("!=", last, ts.Nil(nil))) {
+			case triT:
+				if p.Rets[0] != last {
+					bad("a recorded error must be returned as it is, whatever the state of the context: an attempt whose context was cancelled would otherwise see context.Canceled next to the previous attempt's result")
+				}
+			case triF:
+				var cerr *Event
+				for _, x := range errs {
+					if p.State.Facts.Truth(ts, ts.Cmp("!=", x.Res[0], ts.Nil(nil))) == triT {
+						cerr = x
+					}
+				}
+				isCtxErr := false
+				for _, x := range errs {
+					if p.Rets[0] == x.Res[0] {
+						isCtxErr = true
+					}
+				}
+				if cerr != nil && !isCtxErr {
+					bad("with no recorded error a cancelled context's error is reported")
+				}
+				if cerr == nil && !(p.Rets[0] == last || p.Rets[0].IsNilConst() || isCtxErr) {
+					bad("with no recorded error and a live context LastError() is nil")
+				}
+			default:
+				bad("LastError() does not depend on whether an error was recorded")
+			}
+		}
+		if ok && len(ps) > 0 {
+			c.Ok(c.fn(fn), c.P.FuncPos(fn), "recorded error if any, else the context's error")
 		}
 	}
 	for _, sp := range []struct{ m, field string }{{"ElapsedTime", "startTime"}, {"ElapsedAttemptTime", "attemptStartTime"}} {
